@@ -198,6 +198,10 @@ int read_macho(
     return -1;
   }
 
+  // The counts and sizes in the file are not trusted: every loop below
+  // stops where the file ends.
+  const uint64_t file_length = file.get_file_length();
+
   file.set_endian(FileIo::FILE_ENDIAN_LITTLE);
   macho_header.magic_number = file.get_int32();
 
@@ -250,6 +254,8 @@ int read_macho(
 
   for (uint32_t i = 0; i < macho_header.load_command_count; i++)
   {
+    if ((uint64_t)file.tell() >= file_length) { break; }
+
     macho_load_command.type = file.get_int32();
     macho_load_command.size = file.get_int32();
 
@@ -260,11 +266,16 @@ int read_macho(
       {
         // LC_SEGMENT_32
         // LC_SEGMENT_64
-        macho_read_segment_load(macho_segment_load, file, bits);
+        if (macho_read_segment_load(macho_segment_load, file, bits) != 0)
+        {
+          break;
+        }
 
         for (uint32_t n = 0; n < macho_segment_load.section_count; n++)
         {
-          macho_read_section(macho_section, file, bits);
+          if ((uint64_t)file.tell() >= file_length) { break; }
+
+          if (macho_read_section(macho_section, file, bits) != 0) { break; }
 
           if (strcmp(macho_section.section_name, "__text") == 0)
           {
@@ -273,7 +284,10 @@ int read_macho(
 
             for (uint32_t t = 0; t < macho_section.size; t++)
             {
-              memory->write8(macho_section.address + t, file.get_int8());
+              int ch = file.get_int8();
+              if (ch == EOF) { break; }
+
+              memory->write8(macho_section.address + t, ch);
             }
 
             start = macho_section.address;
@@ -297,6 +311,8 @@ int read_macho(
 
         for (uint32_t n = 0; n < macho_symtab.symbol_count; n++)
         {
+          if ((uint64_t)file.tell() >= file_length) { break; }
+
           macho_read_symbol(macho_symbol, file, bits);
 
           // Check N_EXT (external symbol bit).
